@@ -46,6 +46,12 @@ var commonAssumptions = []string{
 
 func init() {
 	register(&Def{
+		ID: "C11", Level: "exploration", MinSigs: 30,
+		Rule: "metamorphic pairs: the same packet (same sequence, same bytes) is executed through the real core handler on two branches of one state - orbiter account empty vs after 1..4 real MsgSend deposits (transferred denom, other denoms, amounts 1 / equal to the transfer / random) - for PRNG-drawn routes (calibrated and hostile, incl. Hyperlane with the gas-paymaster hook), fee lists and amounts; oracle: byte-equal acknowledgement, equal ledger delta of all third accounts and supply, equal bridge events, equal statistics delta; deposit of the transferred denom ends on the dust collector, other denoms do not move. non-trivial = every pair; distinct = (route class, fee class, outcome, same-denom deposit?, number of deposits)",
+		Assumptions: commonAssumptions,
+		Run:         withLab(world.Config{}, CheckC11),
+	})
+	register(&Def{
 		ID: "C04", Level: "exploration", MinSigs: 50,
 		Rule:        "end-to-end: PRNG-drawn (amount 1..2^256-1, boundary-biased) x fee lists (valid, arbitrary incl. invalid recipients/bps/amount spellings, and boundary shapes: total==A, total==A-1, 6 entries, sum/ product overflow, repeated recipients) on calibrated destinations through the real core handler, plus a complete grid amount-edge x bps-edge x list length 1..6; oracle = big-integer model: verdict (must succeed / must refuse / either) and exact recipient credits + forwarded amount over the full ledger. Direct: the same generators against FeeAttributes.Validate and ComputeFeesToDistribute. non-trivial = every case with a two-sided verdict or an executed transfer; distinct = (destination, fee class, verdict, outcome, amount width) tuples",
 		Assumptions: append([]string{"lexically odd spellings of a positive fixed amount and products A*bps >= 2^256 are EITHER refused or executed exactly (the statement fixes no outcome)"}, commonAssumptions...),
